@@ -5,7 +5,7 @@ from ..ref import P, L, to32, le
 
 REQUIRED = ['u:small-order', 'u:twist', 'u:noncanon', 'u:bit255', 'u:oncurve', 'u:random', 'dh:agree', 'conv:identity',
             'conv:u=-1', 'conv:twist', 'conv:roundtrip', 'eq:modp', 'contributory:false', 'contributory:true', 'iterated',
-            'ed2x']
+            'ed2x', 'u:near-special']
 
 
 def B(x):
